@@ -171,9 +171,18 @@ func runC17Arg(c *Ctx) {
 					}
 					// or the character established by an enclosing `if X.scan.Peek() == lit`
 					if ifs, ok := stack[i].(*ast.IfStmt); ok {
-						if be, ok := ifs.Cond.(*ast.BinaryExpr); ok && be.Op == token.EQL && isScanCall(be.X, "Peek") {
-							if ctv := info.Types[be.Y]; ctv.Value != nil && tv.Value != nil && constant.Compare(ctv.Value, token.EQL, tv.Value) {
-								found = true
+						// the condition or one of its conjuncts
+						conj := []ast.Expr{ifs.Cond}
+						for k := 0; k < len(conj); k++ {
+							if be, ok := ast.Unparen(conj[k]).(*ast.BinaryExpr); ok && be.Op == token.LAND {
+								conj = append(conj, be.X, be.Y)
+							}
+						}
+						for _, cj := range conj {
+							if be, ok := ast.Unparen(cj).(*ast.BinaryExpr); ok && be.Op == token.EQL && isScanCall(be.X, "Peek") {
+								if ctv := info.Types[be.Y]; ctv.Value != nil && tv.Value != nil && constant.Compare(ctv.Value, token.EQL, tv.Value) {
+									found = true
+								}
 							}
 						}
 					}
